@@ -380,8 +380,8 @@ def run_case(case):
                     # a new object of the class with the same attributes becomes the current object
                     if type(res).__name__ == clsname and st["attrs"] == env.state(cur, els)["attrs"]:
                         cur = res
-                        if op[0] in ("deepcopy", "pickle") and isinstance(getattr(res, "instance", None),
-                                                                          env.E.Instance):
+                        if op[0] in ("deepcopy", "pickle") and "instance" in ATTRS[clsname] \
+                                and st["attrs"][ATTRS[clsname].index("instance")] == 1:
                             env.ref = res.instance
         except Exception as e:  # noqa: the exception class is the observation
             rec["kind"] = "raise"
